@@ -128,7 +128,8 @@ MG_CODES = {21: "the management operation (or a query / execution after it) pani
 
 def main(run):
     build_harness()
-    ok, log = proof_obligations(run, PID, extra_obligations=1, extra_names=["correspondence_C16: Pool/Check.v check_mg = []"])
+    regen_pool()
+    ok, log = proof_obligations(run, PID, extra_obligations=2, extra_names=["T3: pool updates shape obligation (obligations/GenPoolOk.v)", "correspondence_C16: Pool/Check.v check_mg = []"])
     rng = random.Random(run.seed)
     scs = make_scenarios(rng, run.tier)
     run.log("running %d management histories (%d operations)" % (len(scs), sum(len(s["ops"]) for s in scs)))
@@ -156,9 +157,12 @@ def main(run):
         run.report({"kind": "mgmt-history", "symptom": code, "last_ops": list(shape)},
                    {"pool": [s["min"], s["max"]], "history": hist, "scenario": strip({k: v for k, v in s.items() if k != "ops"}), "disagreement": MG_CODES[code]},
                    "C16: after %s on a (%d,%d) pool: %s" % (" ; ".join(("bad-" if "text" in o else "") + o["op"] for o in hist), s["min"], s["max"], MG_CODES[code]))
+    bad_shape = shape_report(run, PID, 'updates', bool(run.violations)) if ok else []
     if not ok and not run.violations:
         run.report({"kind": "proof", "theorem": PID}, {"theorem": "Props/C16.v", "log": log[-3000:]}, "C16: the Coq development no longer builds and no failing history was found", no_input=True)
     cov = run.coverage
+    if ok and not bad_shape:
+        cov["discharged"] += 1
     if not mm:
         cov["discharged"] += 1
     shapes = set(tuple(("bad-" if "text" in o else "") + o["op"] for o in s["ops"]) for s in scs)
